@@ -405,6 +405,7 @@ func (c *callEngine) callWithStack(ctx context.Context, paramResultStack []uint6
 			clearUpper32Bits(s, def.ParamTypes())
 			// s has max(#params, #results) slots: the listener only sees the params, then only the results.
 			listener.Before(ctx, callerModule, def, s[:len(def.ParamTypes())], c.stackIterator(true))
+			c.stackIteratorImpl.clear()
 			// Call into the Go function.
 			func() {
 				if snapshotEnabled {
@@ -447,6 +448,7 @@ func (c *callEngine) callWithStack(ctx context.Context, paramResultStack []uint6
 			clearUpper32Bits(s, def.ParamTypes())
 			// s has max(#params, #results) slots: the listener only sees the params, then only the results.
 			listener.Before(ctx, callerModule, def, s[:len(def.ParamTypes())], c.stackIterator(true))
+			c.stackIteratorImpl.clear()
 			// Call into the Go function.
 			func() {
 				if snapshotEnabled {
@@ -468,6 +470,7 @@ func (c *callEngine) callWithStack(ctx context.Context, paramResultStack []uint6
 			def := mod.Source.FunctionDefinition(index + mod.Source.ImportFunctionCount)
 			clearUpper32Bits(stack[1:], def.ParamTypes())
 			listener.Before(ctx, mod, def, stack[1:], c.stackIterator(false))
+			c.stackIteratorImpl.clear()
 			c.execCtx.exitCode = wazevoapi.ExitCodeOK
 			afterGoFunctionCallEntrypoint(c.execCtx.goCallReturnAddress, c.execCtxPtr,
 				uintptr(unsafe.Pointer(c.execCtx.stackPointerBeforeGoCall)), c.execCtx.framePointerBeforeGoCall)
@@ -670,6 +673,14 @@ func (si *stackIterator) reset(c *callEngine, onHostCall bool) {
 	si.unwind(stackIteratorInitialFrames)
 	si.retAddrCursor = 0
 	si.eng = c.parent.parent.parent
+}
+
+// clear makes the iterator report the end of the stack: it unwinds the native stack on demand, which is only
+// there while the listener runs.
+func (si *stackIterator) clear() {
+	si.retAddrs = si.retAddrs[:0]
+	si.unwindLimit = 0
+	si.c = nil
 }
 
 // unwind sets retAddrs to the first limit return addresses of the stack, or to all of them if there are fewer.
